@@ -112,6 +112,7 @@ func checkC06(c *Ctx) {
 	watcherGoroutinesEnd(c, fns, "R-watcher-ends")
 	interfaceKeysHashable(c, fns, "R-hashable-key")
 	nilableMembers(c, fns, "R-nil-member")
+	poolResetRule(c, "R-pool-reset") // one peer's truncated input must not be what the next request is parsed from
 	c06IndexGuard(c, fns, "R-index-guard")
 	c.R.Min("R-nonblocking-send", 10)
 	// close-once
